@@ -229,10 +229,16 @@ impl TextSelection {
         self.end
     }
 
+    /// Tests whether this text selection lies entirely inside the container (begin and end included), only
+    /// then it can be expressed in cursors relative to the container.
+    fn is_embedded_in(&self, container: &TextSelection) -> bool {
+        self.begin() >= container.begin() && self.end() <= container.end()
+    }
+
     /// Returns the begin cursor of this text selection in another. Returns None if they are not embedded.
     /// **Note:** this does *NOT* check whether the textselections pertain to the same resource, that is up to the caller.
     pub fn relative_begin(&self, container: &TextSelection) -> Option<usize> {
-        if self.begin() >= container.begin() {
+        if self.is_embedded_in(container) {
             Some(self.begin() - container.begin())
         } else {
             None
@@ -242,7 +248,7 @@ impl TextSelection {
     /// Returns the end cursor (begin-aligned) of this text selection in another. Returns None if they are not embedded.
     /// **Note:** this does *NOT* check whether the textselections pertain to the same resource, that is up to the caller.
     pub fn relative_end(&self, container: &TextSelection) -> Option<usize> {
-        if self.end() <= container.end() && self.end() >= container.begin() {
+        if self.is_embedded_in(container) {
             Some(self.end() - container.begin())
         } else {
             None
@@ -252,7 +258,7 @@ impl TextSelection {
     /// Returns the begin cursor of this text selection in another, as an end aligned cursor. Returns None if they are not embedded.
     /// **Note:** this does *NOT* check whether the textselections pertain to the same resource, that is up to the caller.
     fn relative_begin_endaligned(&self, container: &TextSelection) -> Option<isize> {
-        if self.begin() >= container.begin() {
+        if self.is_embedded_in(container) {
             let beginaligned = self.begin() - container.begin();
             let containerlen = container.end() as isize - container.begin() as isize;
             Some(beginaligned as isize - containerlen)
@@ -264,7 +270,7 @@ impl TextSelection {
     /// Returns the begin cursor of this text selection in another, as an end aligned cursor. Returns None if they are not embedded.
     /// **Note:** this does *NOT* check whether the textselections pertain to the same resource, that is up to the caller.
     fn relative_end_endaligned(&self, container: &TextSelection) -> Option<isize> {
-        if self.end() <= container.end() && self.end() >= container.begin() {
+        if self.is_embedded_in(container) {
             let beginaligned = self.end() - container.begin();
             let containerlen = container.end() as isize - container.begin() as isize;
             Some(beginaligned as isize - containerlen)
